@@ -19,6 +19,7 @@ pub fn run(prop: &str, tier: Tier, seed: u64) -> Option<i32> {
         "C11" => c11::run(tier, seed),
         "C14" => c14::run(tier, seed),
         "C15" => c15::run(tier, seed),
+        "C17" => c17::run(tier, seed),
         "C20" => c20::run(tier, seed),
         _ => return None,
     })
@@ -31,6 +32,7 @@ pub fn scenario(prop: &str, name: &str, tier: Tier) -> Option<BoxedScenario> {
         "C11" => c11::scenario(name, tier),
         "C14" => c14::scenario(name, tier),
         "C15" => c15::scenario(name, tier),
+        "C17" => c17::scenario(name, tier),
         "C20" => c20::scenario(name, tier),
         _ => None,
     }
